@@ -318,6 +318,34 @@ NumericFilter(name, x, args) ==
               IN  FVal(NumSub(x, NumMul(b.v, IntV(fl))))
     [] OTHER -> FUnspec
 
+\* ------------------------------------------------------------------ date
+\* Decided for the fragment that does not depend on the clock or the time zone: a calendar date written
+\* YYYY-MM-DD (month 01-12, day 01-28) formatted with %Y %m %d %% and literal text.  A string without a digit
+\* (other than the words for the current time) is not a date: an error.  Everything else is left open.
+Num2(s) == (s[1] - 48) * 10 + (s[2] - 48)
+IsoDate(s) == /\ Len(s) = 10 /\ s[5] = 45 /\ s[8] = 45
+              /\ AllDigits(SubSeq(s, 1, 4)) /\ AllDigits(SubSeq(s, 6, 7)) /\ AllDigits(SubSeq(s, 9, 10))
+              /\ Num2(SubSeq(s, 6, 7)) \in 1..12 /\ Num2(SubSeq(s, 9, 10)) \in 1..28 /\ SubSeq(s, 1, 4) # <<48, 48, 48, 48>>
+RECURSIVE Strftime(_, _)
+Strftime(f, d) ==
+  IF f = <<>> THEN [ok |-> TRUE, s |-> <<>>]
+  ELSE IF Head(f) # 37 THEN (LET r == Strftime(Tail(f), d) IN [ok |-> r.ok, s |-> <<Head(f)>> \o r.s])
+  ELSE IF Len(f) < 2 THEN [ok |-> FALSE, s |-> <<>>]
+  ELSE LET piece == CASE f[2] = 89 -> [ok |-> TRUE, s |-> SubSeq(d, 1, 4)]
+                      [] f[2] = 109 -> [ok |-> TRUE, s |-> SubSeq(d, 6, 7)]
+                      [] f[2] = 100 -> [ok |-> TRUE, s |-> SubSeq(d, 9, 10)]
+                      [] f[2] = 37 -> [ok |-> TRUE, s |-> <<37>>]
+                      [] OTHER -> [ok |-> FALSE, s |-> <<>>]
+           r == Strftime(SubSeq(f, 3, Len(f)), d)
+       IN  [ok |-> piece.ok /\ r.ok, s |-> piece.s \o r.s]
+NowWords == {<<110, 111, 119>>, <<116, 111, 100, 97, 121>>}
+DateFilter(recv, args) ==
+  IF recv.k # "str" THEN FUnspec
+  ELSE IF (\A i \in 1..Len(recv.v) : ~IsDigitB(recv.v[i])) /\ recv.v \notin NowWords /\ IsAscii(recv.v) THEN FErr
+  ELSE IF Len(args) = 1 /\ args[1].k = "str" /\ IsoDate(recv.v) /\ IsAscii(args[1].v) /\ args[1].v # <<>>
+       THEN (LET r == Strftime(args[1].v, recv.v) IN IF r.ok THEN FVal(Str(r.s)) ELSE FUnspec)
+  ELSE FUnspec
+
 \* ------------------------------------------------------------- dispatcher
 ArrayFilters == {"compact", "reverse", "first", "last", "concat", "join", "map", "uniq", "sort", "sort_natural"}
 StringFilters == {"append", "prepend", "upcase", "downcase", "capitalize", "strip", "lstrip", "rstrip", "strip_html",
@@ -337,6 +365,7 @@ Filter(name, recv, args) ==
     (IF Len(args) # 1 THEN FUnspec
      ELSE IF recv.k = "nil" \/ (recv.k = "bool" /\ ~recv.v) \/ IsEmptyV(recv) THEN FVal(args[1])
      ELSE FVal(recv))
+  ELSE IF name = "date" THEN DateFilter(recv, args)
   ELSE IF name = "size" THEN
     (IF recv.k = "str" THEN StringFilter(name, recv.v, args)
      ELSE IF AsArr(recv).ok THEN ArrayFilter(name, AsArr(recv).v, args, AsArr(recv).nf)
